@@ -10,6 +10,17 @@ COMMON_NOTE = ("Trusted base: pyvc engine (AST transform T1-T3 of the real sourc
                "lift to C), A3 (integer powers), A4 (path forking via z3), A5 (numpy shim contracts, listed per run in evidence.trusted_base). ")
 
 CLAIMED = {
+    "C29": dict(
+        category="proof",
+        text=("Exact clauses through O(a_s^2) with the polygamma contract: (1) momentum at N = 2 for the unpolarised space-like matching: O(a_s) every column identically in L; O(a_s^2) the "
+              "light-quark column identically in L and the L, L^2 coefficients of the gluon column exactly (its L-independent term within 1e-5, a ground numerical evaluation), both mass schemes; "
+              "(2) A_qq,ns(1) = 0 at both orders; (3) RG structure of the L dependence derived from f^(nf+1) = A f^(nf): dA1/dL = gamma0_emb(nf) - gamma0(nf+1) on all nine entries for symbolic N "
+              "(unpolarised; polarised on the gluon and light-quark columns; non-singlet matrix), and the O(a_s^2) double logs [L^2]A2 = 1/2 (A1' gamma0_emb - gamma0' A1' + beta0' A1' - 4/3 T_R gamma0_emb) "
+              "on the gluon and light-quark columns, nf = 3, 4, 5."),
+        note=COMMON_NOTE + "Not claimed: O(a_s^3) (parametrised, removable singularities at N = 2), the single logs at O(a_s^2), the time-like RG structure.",
+        technique="contract-based deductive verification: symbolic execution over the polygamma contract + exact normal form; RG equations as specification",
+        design_ref="DESIGN.md section 2, C29",
+    ),
     "C25": dict(
         category="proof",
         text=("Exact clauses, with cern_polygamma replaced by its contract (closed forms at integer / half-integer arguments): (1) the leading-order sum rules hold EXACTLY for nf 3-6 -- "
